@@ -735,6 +735,20 @@ func (e *Engine) unop(fr *frame, st *State, x *ssa.UnOp) {
 				}
 			}
 		}
+		if e.LoadGVN && isSliceLike(x.Type()) {
+			// the same holds for the length of a slice or string loaded twice
+			if k := e.addrExprKey(x.X); k != "" {
+				k = "len:" + k
+				if a, ok := st.loadMemo[k]; ok && a != e.lenAtomOf(x) {
+					st.Bind(e.lenAtomOf(x), Var(a))
+				} else {
+					if st.loadMemo == nil {
+						st.loadMemo = map[string]Atom{}
+					}
+					st.loadMemo[k] = e.lenAtomOf(x)
+				}
+			}
+		}
 		// element of an all-non-nil slice
 		if st.elemsNN["E"+e.vid(x.X)] && isPointerLike(x.Type()) {
 			st.nonnil[e.vid(x)] = true
@@ -932,6 +946,16 @@ func (e *Engine) binop(fr *frame, st *State, x *ssa.BinOp) {
 			r = Range{0, ra.Hi, true, ra.HasHi}
 		}
 		e.freshBounded(st, x, r)
+		// a &^ m for a >= 0 and a constant m >= 0 clears bits worth at most m: a - m <= result <= a;
+		// for m = 2^k - 1 the result is a multiple of 2^k
+		if sb := st.Subst(b); sb.IsConst() && sb.C >= 0 && ra.HasLo && ra.Lo >= 0 && !a.Bad {
+			v := Var(e.atomOf(x))
+			st.Assume(a.Sub(v))
+			st.Assume(v.Sub(a).AddConst(sb.C))
+			if m := sb.C + 1; m&(m-1) == 0 && m > 1 {
+				st.addCong(e.atomOf(x), Cong{m, 0})
+			}
+		}
 	default:
 		e.fresh(st, x)
 	}
